@@ -816,3 +816,33 @@ Proof.
     destruct (Hm eq_refl) as [cur [Ec En]]. rewrite Ec, En. reflexivity.
   - exists sid, v. split; [reflexivity|]. unfold v3_built in *. rewrite ?Epm in *. exact B.
 Qed.
+
+(* ---------------------------------------------------------------------------------- *)
+(* the restricted-join oracle accepts every verdict of the model                        *)
+(* ---------------------------------------------------------------------------------- *)
+
+Lemma nobody_vouches_of_forall privileged d :
+  (forall u, vouched_by privileged d u = false) -> nobody_vouches privileged d = true.
+Proof.
+  intro H. unfold nobody_vouches. apply negb_true_iff.
+  destruct (existsb (vouched_by privileged d) (all_candidates d)) eqn:E; [|reflexivity].
+  apply existsb_exists in E. destruct E as [u [_ Hu]]. rewrite H in Hu. discriminate.
+Qed.
+
+Lemma rj_oracle_sound ver localname room sender d r log :
+  version_check_restricted_join ver localname room sender d = Some (r, log) ->
+  rj_observed_admissible ver d (observe r) = true.
+Proof.
+  unfold version_check_restricted_join, rj_observed_admissible.
+  destruct (version_rj_kind ver); intro H; [|inversion H; reflexivity|discriminate].
+  inversion H as [H1].
+  pose proof (check_restricted_join_spec localname room sender (version_privileged_creators ver) d) as S.
+  rewrite H1 in S. simpl fst in S.
+  destruct r as [u| | |]; simpl in S |- *.
+  - destruct S as [[Eu Hn]|[Hv _]].
+    + subst u. rewrite Hn. reflexivity.
+    + rewrite Hv. apply orb_true_r.
+  - rewrite S. reflexivity.
+  - destruct S as [Hf _]. apply nobody_vouches_of_forall. exact Hf.
+  - destruct S as [Hf _]. apply nobody_vouches_of_forall. exact Hf.
+Qed.
